@@ -348,6 +348,9 @@ Definition jinit (start : N) : jm :=
 
 Definition znth (l : list Z) (i : nat) : Z := nth i l 0%Z.
 
+Fixpoint pairs (l : list Z) : list (N * N) :=
+  match l with a :: b :: t => (zN a, zN b) :: pairs t | _ => [] end.
+
 (* split one op's output: (code, lost, hulls, rest of 20, remaining output) *)
 Definition parse_obs (o : list Z) : option (Z * list N * list (N * N) * list Z * list Z) :=
   match o with
@@ -362,8 +365,6 @@ Definition parse_obs (o : list Z) : option (Z * list N * list (N * N) * list Z *
           let hz := firstn (2 * h) o2 in
           let o3 := skipn (2 * h) o2 in
           if negb (Nat.eqb (length (firstn n o1)) n && Nat.eqb (length hz) (2 * h) && Nat.leb 20 (length o3)) then None else
-          let fix pairs (l : list Z) : list (N * N) :=
-            match l with a :: b :: t => (zN a, zN b) :: pairs t | _ => [] end in
           Some (code, lost, pairs hz, firstn 20 o3, skipn 20 o3)
       | [] => None
       end
